@@ -59,7 +59,7 @@ func verifH_C10_index_reader() {
 	if err != nil {
 		return
 	}
-	file := &verifFile{data: verifNondetBytes("file", 8)}
+	file := &verifFile{data: verifNondetBytes("file", verifBoundFile)}
 	tr, err := newTableReader(context.Background(), idx, file, 4096)
 	if err != nil {
 		return
